@@ -80,7 +80,7 @@ void explore04(Options const& o, std::vector<Shim*> const& shims, std::vector<Sh
   {
   i64 win = th ? (1<<16) : (1<<12);
   std::vector<i64> extra;
-  for( int t = 0; t < 8; ++t )
+  for( int t : INT_TYPES )
     for( i128 lim : { t_min(t), t_max(t) + 1, t_min(t) - 1, t_max(t) } )
       for( i64 d = -win; d <= win; ++d ) { i128 v = lim * 65536 + d; if( v >= FX_LOWEST && v <= FX_MAX ) extra.push_back(static_cast<i64>(v)); }
   Sx.insert(Sx.end(), extra.begin(), extra.end());
@@ -94,7 +94,7 @@ void explore04(Options const& o, std::vector<Shim*> const& shims, std::vector<Sh
     {
     Shim* s = shims[ci];
     u64 ob = static_cast<u64>(ci) << 56;
-    for( int t = 0; t < 8; ++t )
+    for( int t : INT_TYPES )
       {
       for( int how = 0; how < FI_COUNT; ++how )
         {
